@@ -493,6 +493,10 @@ func c17CheckHeaderBits(c c17HdrCase) engine.Result {
 				cont[i] = byte(0x30 + i%97)
 			}
 			cont[0] = 0x47
+			if cc == 10 {
+				cont[0] = 0x00 // the accumulator does not judge the sync byte: the packet is stored as it came
+				start[0] = 0x48
+			}
 			cont[1] = byte(c.Byte1Top&2<<6|c.Byte1Top&1<<5) | 0x01
 			cont[2] = 0x00
 			afc := 1
@@ -525,7 +529,7 @@ func c17CheckHeaderBits(c c17HdrCase) engine.Result {
 			if got := acc.Bytes(); !bytes.Equal(got, want) {
 				res.Failf("header-bits|Bytes", "continuation with header % x (scrambling %d, adaptation_field_length %d): %d bytes accumulated, want %d (first difference at %d)", cont[:5], c.TSC, c.AFLen, len(got), len(want), firstDiff(got, want))
 			}
-			if gp := acc.Packets(); len(gp) != 2 || gp[1] == nil || *gp[1] != cont {
+			if gp := acc.Packets(); len(gp) != 2 || gp[1] == nil || *gp[1] != cont || gp[0] == nil || *gp[0] != start {
 				res.Failf("header-bits|Packets", "the stored continuation packet differs from the packet written")
 			}
 			res.Outcome(len(pay))
@@ -691,7 +695,7 @@ func init() {
 			},
 			&engine.Enum[c17HdrCase]{
 				Name: "header-bits",
-				Rule: "a unit start (plain / scrambled) followed by one continuation packet for every combination of transport_error_indicator x transport_priority x transport_scrambling_control (4) x adaptation field absent / adaptation_field_length 0..182 x 4 continuity counters: no error, Bytes() == the two payloads, Packets() holds the packet as written (the payload position depends on adaptation_field_control and the length byte only)",
+				Rule: "a unit start (plain / scrambled) followed by one continuation packet for every combination of transport_error_indicator x transport_priority x transport_scrambling_control (4) x adaptation field absent / adaptation_field_length 0..182 x 4 continuity counters (one of them with sync bytes other than 0x47 on both packets): no error, Bytes() == the two payloads, Packets() holds the packet as written (the payload position depends on adaptation_field_control and the length byte only)",
 				Gen: func(r *engine.Run, emit func(c17HdrCase)) {
 					for b := 0; b < 4; b++ {
 						for tsc := 0; tsc < 4; tsc++ {
